@@ -43,6 +43,7 @@ def run_pairs(pid, tier, seed, ops, nconf, stride, only_nonuniform=False, l1_rec
         evs, mism, r = vlib.judge_trace("Trace_Pairs", sel, cfg=EXPLAIN_CFG, timeout=6000)
         assert len(mism) == len(evs)
         sites = {}
+        examples = {}
         for m in mism:
             e = evs[m[1] - 1]
             exp_l1, preds, site = m[2], m[3], m[4]
@@ -57,10 +58,14 @@ def run_pairs(pid, tier, seed, ops, nconf, stride, only_nonuniform=False, l1_rec
                 k = v.find_known(site)
                 if k is not None:
                     v.known_finding(k["id"], rec)
-                    sites[(site, "exact=%s got=%s" % (exp_l1, got))] = sites.get((site, "exact=%s got=%s" % (exp_l1, got)), 0) + 1
+                    sk = (site, "exact=%s got=%s" % (exp_l1, got))
+                    sites[sk] = sites.get(sk, 0) + 1
+                    if sk not in examples and "sub0" in e["encA"] and "sub0" in e["encB"]:
+                        examples[sk] = {"A": e["A"], "B": e["B"], "api": e["api"]}
                     continue
             v.violation(rec)
-        expl = {"events": len(evs), "by_site_and_polarity": {"%s %s" % k: n for k, n in sorted(sites.items())}}
+        expl = {"events": len(evs), "by_site_and_polarity": {"%s %s" % k: n for k, n in sorted(sites.items())},
+                "example_per_site_and_polarity": {"%s %s" % k: ex for k, ex in sorted(examples.items())}}
     gen_states = sum(m["distinct"] for m in metas)
     gen_trans = sum(m["generated"] for m in metas)
     cov = {
